@@ -32,10 +32,8 @@ EXEMPT: dict[tuple[str, str], str] = {
     ("RenderContext.cycle", "idx % length"): "length = len(self.items) of a CycleNode; CycleTag.parse rejects an empty item list",
     ("RenderContext.get", "next(it)"): "path lists are built by the parser and are never empty (Path.__init__ from a PathToken with at least a root)",
     ("RenderContext.get_async", "next(it)"): "path lists are built by the parser and are never empty",
-    ("RenderContext.get", "assert isinstance(root, str)"): "the root segment of a parsed path is always a string (lexer WORD or quoted segment)",
-    ("RenderContext.get_async", "assert isinstance(root, str)"): "the root segment of a parsed path is always a string",
     ("_segments_str", "next(it)"): "called with path[: i + 2] where i >= 0: at least two segments",
-    ("_segments_str", "str() of next(it)"): "the first segment of a parsed path is its root, always a str (asserted in RenderContext.get)",
+    ("_segments_str", "str() of next(it)"): "called only after self.scope[root] succeeded for a root that RenderContext.get has checked to be a str (isinstance guard returns early otherwise)",
     ("RenderContext.get_item", "next(itertools.islice(obj.items(), 1))"): "guarded by `isinstance(obj, Mapping) and obj`: the mapping is non-empty",
     ("RenderContext.get_item_async", "next(itertools.islice(obj.items(), 1))"): "guarded by `isinstance(obj, Mapping) and obj`: the mapping is non-empty",
     ("Path.head", "self.path[0]"): "a Path always has a root segment (constructed from a PathToken / WORD)",
